@@ -55,6 +55,8 @@ def menu(I, s):
         tds('TD_TextAlt', I + 'TextAlt', '_' + I + 'Text'),
         {'id': 'TA_Anon', 'k': 'tda', 'name': I + 'Anon', 'fields': [['z', 'int']], 'union': False},
         {'id': 'EN_Mode', 'k': 'enum', 'name': I + 'Mode', 'members': [[S + '_MODE_A', 0], [S + '_MODE_B', 1]]},
+        # single member: no common member prefix exists, the member name is the identifier minus the namespace prefix
+        {'id': 'EN_Solo', 'k': 'enum', 'name': I + 'Solo', 'members': [[S + '_SOLO_a', 0]]},
         {'id': 'CB_Callback', 'k': 'cb', 'name': I + 'Callback', 'ret': 'void', 'params': [['int', 'x']]},
         {'id': 'AL_Alias', 'k': 'alias', 'name': I + 'Alias', 'target': 'int'},
         tds('TD_Uni', I + 'Uni', '_' + I + 'Uni', union=True),
@@ -99,6 +101,10 @@ def menu(I, s):
         {'id': 'K_MAX', 'k': 'const', 'name': S + '_MAX', 'value': 10},
         {'id': 'K_SECRET', 'k': 'const', 'name': '_' + S + '_SECRET', 'value': 1},
         {'id': 'K_BAR_MIN', 'k': 'const', 'name': 'BAR_MIN', 'value': 1},
+        # mixed-case names behind the upper-case prefix (GDK_KEY_a style): the prefix is still carried
+        {'id': 'K_KEY_a', 'k': 'const', 'name': S + '_KEY_a', 'value': 97},
+        {'id': 'K_KEY_Return', 'k': 'const', 'name': S + '_KEY_Return', 'value': 65293},
+        {'id': 'K_x', 'k': 'const', 'name': S + '_x', 'value': 3},
     ]
     core = set(CORE_IDS) | ALL_EXTRA
     for it in items:
